@@ -207,6 +207,13 @@ def define_pipeline(n, pipe='p0', fail_at=None, shard_index=0, num_shards=1):
   t = T.new(name='ds').data_source(ds)
   if fail_at is not None:
     t = t.apply(fn=FailAt(fail_at))
+  return add_stages(t, pipe)
+
+
+def add_stages(t, pipe):
+  """The stages after the data source (shared with harness.lib_sched_ext.gated_pipeline)."""
+  ns = setup()
+  T = ns.transform.TreeTransform
   if pipe == 'p0':
     t = t.apply(fn=_double).aggregate(output_keys='seen', fn=ns.base.as_agg_fn(Collect))
   elif pipe == 'p1':
@@ -215,6 +222,13 @@ def define_pipeline(n, pipe='p0', fail_at=None, shard_index=0, num_shards=1):
          .add_aggregate(output_keys='sc', fn=ns.base.as_agg_fn(SumCount)))
   elif pipe == 'p2':   # aggregate in a separately named, chained transform
     t = t.apply(fn=_inc).chain(T.new(name='agg').aggregate(output_keys='seen', fn=ns.base.as_agg_fn(Collect)))
+  elif pipe == 'p3':   # a chain in which TWO stages aggregate (each stage's states are merged separately)
+    t = (t.apply(fn=_inc).aggregate(output_keys='seen', fn=ns.base.as_agg_fn(Collect))
+         .chain(T.new(name='post').apply(fn=_triple).aggregate(output_keys='sc', fn=ns.base.as_agg_fn(SumCount))))
+  elif pipe == 'p4':   # three aggregating stages
+    t = (t.apply(fn=_inc).aggregate(output_keys='seen', fn=ns.base.as_agg_fn(Collect))
+         .chain(T.new(name='mid').apply(fn=_double).aggregate(output_keys='sc', fn=ns.base.as_agg_fn(SumCount)))
+         .chain(T.new(name='post').apply(fn=_inc).aggregate(output_keys='seen2', fn=ns.base.as_agg_fn(Collect))))
   elif pipe == 'noagg':
     t = t.apply(fn=_double)
   else:
@@ -223,7 +237,13 @@ def define_pipeline(n, pipe='p0', fail_at=None, shard_index=0, num_shards=1):
 
 
 def row_fn(pipe):
-  return {'p0': lambda x: x * 2, 'p1': lambda x: (x + 1) * 3, 'p2': lambda x: x + 1, 'noagg': lambda x: x * 2}[pipe]
+  return {'p0': lambda x: x * 2, 'p1': lambda x: (x + 1) * 3, 'p2': lambda x: x + 1, 'noagg': lambda x: x * 2,
+          'p3': lambda x: (x + 1) * 3, 'p4': lambda x: (x + 1) * 2 + 1}[pipe]
+
+
+def seen_fn(pipe):
+  """What the `seen` aggregate (a `Collect`) of the pipeline records for element x."""
+  return {'p3': lambda x: x + 1, 'p4': lambda x: x + 1}.get(pipe) or row_fn(pipe)
 
 
 def in_process(n, pipe):
